@@ -28,6 +28,9 @@ package event
 //@   ensures old(len(this.buffer)) > 0 ==> forall i int :: 0 <= i && i < len(result) ==> result[i] == old(this.buffer[i])
 //@   ensures old(len(this.buffer)) > 0 ==> len(this.buffer) == old(len(this.buffer)) - len(result)
 //@   ensures old(len(this.buffer)) > 0 ==> forall i int :: 0 <= i && i < len(this.buffer) ==> this.buffer[i] == old(this.buffer[i + len(result)])
+// the batch handed out is the caller's own: it shares no storage with the buffer, so a producer pushing while the batch is
+// being written to the broker cannot overwrite it
+//@   ensures len(result) > 0 ==> fresh(result)
 
 //@ func (this *FifoBuffer[T]) Length() (n int)
 //@   property C19
@@ -76,3 +79,19 @@ package event
 //@   ensures internalEvent is *pb.Ev_RunEvent && internalEvent.(*pb.Ev_RunEvent) != nil && len(old(internalEvent.(*pb.Ev_RunEvent).EnvironmentId)) > 0 ==> err == nil && bstr(key) == old(internalEvent.(*pb.Ev_RunEvent).EnvironmentId)
 //@   ensures internalEvent is *pb.Ev_TaskEvent && internalEvent.(*pb.Ev_TaskEvent) != nil && len(key) > 0 ==> err == nil && bstr(key) == old(internalEvent.(*pb.Ev_TaskEvent).Taskid)
 //@   ensures !(internalEvent is *pb.Ev_RoleEvent) && !(internalEvent is *pb.Ev_EnvironmentEvent) && !(internalEvent is *pb.Ev_CallEvent) && !(internalEvent is *pb.Ev_IntegratedServiceEvent) && !(internalEvent is *pb.Ev_RunEvent) && !(internalEvent is *pb.Ev_TaskEvent) ==> key == nil
+
+// C19: publication order is channel order: the producer itself puts its message on the channel to the batching loop,
+// exactly once, before WriteEvent returns (no helper goroutine that could overtake or lag behind the next publication);
+// a message that cannot be converted is dropped with an error log and nothing is sent.
+//@ closure (*KafkaWriter).WriteEventWithTimestamp #1
+//@   property C19
+//@   ghostvar sent int = 0
+//@   ghostvar convErr bool = false
+//@   ghostvar msgErr bool = false
+//@   ghostvar converted bool = false
+//@   on aftercall internalEventToKafkaEvent : convErr = (result2 != nil) ; converted = true
+//@   on aftercall kafkaEventToKafkaMessage : msgErr = (result1 != nil)
+//@   on go * : assert false
+//@   on send * : assert converted && !convErr && !msgErr && sent == 0 ; sent = sent + 1
+//@   ensures converted && !convErr && !msgErr ==> sent == 1
+//@   ensures convErr || msgErr ==> sent == 0
